@@ -451,6 +451,19 @@ def stmt (st : St) (ws : List String) : St × String :=
      | _, _ => (st, "skip"))
   | ["routelate", l, r, k0, k] => routeLateStmt st l r k0 k
   | ["handlerlisten", l, trig, s] => handlerListenStmt st l trig s
+  | ["lateswitch", l, trig, s] => handlerListenStmt st l trig s      -- `switch_s` over a constant cell holding `s` is `s`
+  | ["lateswitchc", l, trig, c] =>
+    -- `switch_c` over a constant cell holding `c`, its updates listened to: the updates of `c`
+    if !st.fresh l then (st, "skip") else
+    (match st.stream trig, st.cell c with
+     | some t, some c =>
+       st.inTxn fun st =>
+         let j := st.sp.defs.size
+         let st := st.addDef (l ++ "#u") (.updates c) .s
+         let (st, _, e) := lateEvents st l t j
+         let st := { st with lis := st.lis.push { name := l, target := e, isCell := false, regTxn := st.sp.txn, weak := false } }
+         st.bind l .post
+     | _, _ => (st, "skip"))
   | ["leafdrop", l, trig, s, kind] =>
     -- an unobserved primitive on `s` dropped by a handler of `trig`: no observable effect whatsoever
     if !st.fresh l then (st, "skip") else
